@@ -395,120 +395,137 @@ def sort_calls(body):
                            'sort_by_key', 'sort_unstable_by_key', 'sort_by_cached_key')
 
 
+SORT_NAMES = ('sort_by', 'sort_unstable_by', 'sort_by_key', 'sort_unstable_by_key', 'sort_by_cached_key', 'sort',
+              'sort_unstable', 'sorted_by', 'sorted_by_key', 'sorted_unstable_by')
+
+
 def rule_topn_order(ctx, R):
+    """every per-query list is sorted by decreasing weight and then truncated to N — whether the per-query step is the
+    body of a `for` loop of winners() or a closure handed to for_each / map over the lists"""
+    from lib import effective_sites, subst_upvars
     F = ctx.F
     b = ctx.anchor(R, TOPN)
     if b is None:
         return 0
     n = 0
-    sc = sort_calls(b)
-    tr = b.find_calls('std::vec::Vec::truncate')
+    sc = [(site, c, o) for site, c, o in effective_sites(F, b) if c.name in SORT_NAMES and
+          ('slice' in c.callee or 'Vec' in c.callee or 'itertools' in c.callee.lower())]
+    tr = effective_sites(F, b, 'std::vec::Vec::truncate')
     ctx.check(len(sc) >= 1 and len(tr) >= 1, R, b, 'topn:sort-and-truncate-present', '',
               'top-N voting no longer sorts (%d) and truncates (%d) the per-query list' % (len(sc), len(tr)))
-    eb = ExprBuilder(b)
-    for c in sc:
-        for cb in closure_args_of_call(F, b, c):
-            d, f = comparator_direction(cb)
-            n += 1
-            ctx.check(d == 'desc' and f == 'weight', R, cb, 'topn:sorted-by-decreasing-weight',
-                      'comparator: %s on %s' % (d, f),
-                      'the per-query winners are sorted %s on `%s` (expected descending weight)' % (d, f), c.ln)
-    for c in sc:
-        # the sort is executed for every query: unconditional inside its loop
-        hs = [h for h, blks in b.loops().items() if c.bb in blks]
+    for site, c, o in sc:
+        d, f = sort_semantics(F, o, c)
         n += 1
-        okl = bool(hs)
+        ctx.check(d == 'desc' and f == 'weight', R, o, 'topn:sorted-by-decreasing-weight',
+                  'comparator: %s on %s' % (d, f),
+                  'the per-query winners are sorted %s on `%s` (expected descending weight)' % (d, f), c.ln)
+    for site, c, o in sc:
+        n += 1
         detail = ''
-        if okl:
-            h = max(hs, key=lambda x: len(b.loops()[x]) * -1)
-            nx = [x for x in b.find_calls('std::iter::Iterator::next') if x.bb in b.loops()[h]]
-            start = None
-            for x in nx:
-                tb = b.blocks[x.target]['t']
-                if tb['k'] == 'switch':
-                    for tg in set(tg for _, tg in b.switch_edges(x.target)):
-                        if tg in b.diverging():
-                            continue
-                        cnd = Cond(b, x.target, tg)
-                        if cnd.kind == 'discr' and cnd.variants == {'Some'}:
-                            start, hdr = tg, x.bb
-            if start is not None:
-                r = count_on_paths(b, start, [hdr], [c.bb])
-                detail = 'per query %s' % (r,)
-                okl = r == (1, 1)
+        if o is not b:
+            # the per-query step is a closure: the sort runs exactly once on every path through it
+            r = count_on_paths(o, 0, o.returns(), [c.bb])
+            okl = r == (1, 1)
+            detail = 'per query (closure) %s' % (r,)
+        else:
+            # the sort is executed for every query: unconditional inside its loop
+            hs = [h for h, blks in b.loops().items() if c.bb in blks]
+            okl = bool(hs)
+            if okl:
+                h = max(hs, key=lambda x: len(b.loops()[x]) * -1)
+                nx = [x for x in b.find_calls('std::iter::Iterator::next') if x.bb in b.loops()[h]]
+                start = None
+                for x in nx:
+                    tb = b.blocks[x.target]['t']
+                    if tb['k'] == 'switch':
+                        for tg in set(tg for _, tg in b.switch_edges(x.target)):
+                            if tg in b.diverging():
+                                continue
+                            cnd = Cond(b, x.target, tg)
+                            if cnd.kind == 'discr' and cnd.variants == {'Some'}:
+                                start, hdr = tg, x.bb
+                if start is not None:
+                    r = count_on_paths(b, start, [hdr], [c.bb])
+                    detail = 'per query %s' % (r,)
+                    okl = r == (1, 1)
         ctx.check(okl, R, b, 'topn:every-query-list-is-sorted', detail,
                   'the per-query winners are sorted only on some paths (%s): lists that skip the sort come out in '
                   'hash-map order' % detail, c.ln)
-    for t in tr:
+    for site, t, o in tr:
         n += 1
-        ok = any(b.dominates(c.bb, t.bb) for c in sc)
-        arg = eb.operand(t.args[1])
-        ctx.check(ok and arg.has_place(root=('param', 1), field='topn'), R, b, 'topn:truncate-after-sort',
+        ok = any(o2 is o and o.dominates(c.bb, t.bb) for _, c, o2 in sc) or \
+            any(o2 is b and o is not b and b.dominates(c.bb, site) for _, c, o2 in sc)
+        arg = subst_upvars(F, o, ExprBuilder(o).operand(t.args[1]))
+        ctx.check(ok and arg.has_place(root=('param', 1), field='topn'), R, o, 'topn:truncate-after-sort',
                   'truncate(%r) dominated by the sort' % arg,
                   'truncate(%r) is not performed after the sort with N = self.topn' % arg, t.ln)
     return n
 
 
 def rule_bestfit_claims(ctx, R):
+    """claims are awarded in decreasing weight order; the taken-set holds awarded TRACKS; a loser falls back to itself.
+    The claim loop may be a `for` loop of winners() or the closure of a `for_each`: all checks are made in the body
+    that owns the taken-set operations, the ordering check at the block of winners() where that body runs."""
+    from lib import effective_sites
     F = ctx.F
     b = ctx.anchor(R, BEST)
     if b is None:
         return 0
     n = 0
-    eb = ExprBuilder(b)
     sc = sort_calls(b)
-    contains = b.find_calls('std::collections::HashSet::contains')
-    inserts = b.find_calls('std::collections::HashSet::insert')
+    contains = effective_sites(F, b, 'std::collections::HashSet::contains')
+    inserts = effective_sites(F, b, 'std::collections::HashSet::insert')
     if not inserts:
         ctx.fail(R, b, 'bestfit:claim-loop', 'ANCHOR-MISSING: no taken-set (HashSet::insert) found in best-fit voting')
         return 0
     for c in sc:
-        for cb in closure_args_of_call(F, b, c):
-            d, f = comparator_direction(cb)
-            n += 1
-            ctx.check(d == 'desc' and f == 'weight', R, cb, 'bestfit:sorted-by-decreasing-weight',
-                      'comparator: %s on %s' % (d, f),
-                      'candidates are sorted %s on `%s` before tracks are awarded (expected descending weight: the '
-                      'greatest weight must claim first)' % (d, f), c.ln)
+        d, f = sort_semantics(F, b, c)
+        n += 1
+        ctx.check(d == 'desc' and f == 'weight', R, b, 'bestfit:sorted-by-decreasing-weight',
+                  'comparator: %s on %s' % (d, f),
+                  'candidates are sorted %s on `%s` before tracks are awarded (expected descending weight: the '
+                  'greatest weight must claim first)' % (d, f), c.ln)
     n += 1
-    ctx.check(bool(sc) and all(any(b.dominates(s.bb, c.bb) for s in sc) for c in contains + inserts), R, b,
+    ctx.check(bool(sc) and all(any(b.dominates(s_.bb, site) for s_ in sc) for site, c, o in contains + inserts), R, b,
               'bestfit:sort-dominates-claim-loop', 'sort precedes the claim loop',
               'tracks are awarded in stream/group order: no sort by weight dominates the claim loop (first come wins '
               'instead of greatest weight)')
-    for c in contains:
-        a = eb.arg(c, 1)
+    for site, c, o in contains:
+        a = ExprBuilder(o).arg(c, 1)
         n += 1
-        ctx.check(a.has_field('winner_track') and not a.has_field('query_track'), R, b, 'bestfit:contains(winner)',
+        ctx.check(a.has_field('winner_track') and not a.has_field('query_track'), R, o, 'bestfit:contains(winner)',
                   'contains(%r)' % a, 'the taken-set is queried with %r, not with the contested track' % a, c.ln)
-    for c in inserts:
-        a = eb.arg(c, 1)
+    for site, c, o in inserts:
+        a = ExprBuilder(o).arg(c, 1)
         n += 1
-        ctx.check(a.has_field('winner_track') and not a.has_field('query_track'), R, b, 'bestfit:insert(winner)',
+        ctx.check(a.has_field('winner_track') and not a.has_field('query_track'), R, o, 'bestfit:insert(winner)',
                   'insert(%r)' % a,
                   'the taken-set records %r instead of the awarded track: a track stops being exclusive' % a, c.ln)
-        if contains:
-            conds = path_conditions(b, c.bb)
+        if [x for x in contains if x[2] is o]:
+            conds = path_conditions(o, c.bb)
             neg = any(k.kind == 'bool' and k.truth is False and k.expr.kind == 'call' and k.expr.name.endswith(
                 'HashSet::contains') for k in conds)
-            ctx.check(neg, R, b, 'bestfit:insert-on-not-contains', '', 'the winner is recorded as taken although it '
+            ctx.check(neg, R, o, 'bestfit:insert-on-not-contains', '', 'the winner is recorded as taken although it '
                       'was already taken', c.ln)
     # loser keeps itself: winner_track := query_track on the already-taken side (contains == true | insert == false)
     found = False
-    for i in sorted(b.live_blocks()):
-        for si, s in enumerate(b.blocks[i]['st']):
-            if s['k'] == 'assign' and s['lhs']['p'] and isinstance(s['lhs']['p'][-1], dict) and s['lhs']['p'][-1].get(
-                    'n') == 'winner_track':
-                rhs = eb._rvalue(s['rv'], (), 0, (i, si))
-                conds = path_conditions(b, i)
-                pos = any(k.kind == 'bool' and k.expr.kind == 'call' and (
-                    (k.truth is True and k.expr.name.endswith('HashSet::contains')) or
-                    (k.truth is False and k.expr.name.endswith('HashSet::insert'))) for k in conds)
-                found = True
-                n += 1
-                ctx.check(pos and rhs.has_field('query_track'), R, b, 'bestfit:loser-falls-back-to-itself',
-                          'winner_track = %r on the already-taken side' % rhs,
-                          'a query that loses a contest is assigned %r (taken-side=%s) instead of itself' % (rhs, pos),
-                          s['ln'])
+    for o in {id(x[2]): x[2] for x in inserts + contains}.values():
+        eo = ExprBuilder(o)
+        for i in sorted(o.live_blocks()):
+            for si, s in enumerate(o.blocks[i]['st']):
+                if s['k'] == 'assign' and s['lhs']['p'] and isinstance(s['lhs']['p'][-1], dict) and \
+                        s['lhs']['p'][-1].get('n') == 'winner_track':
+                    rhs = eo._rvalue(s['rv'], (), 0, (i, si))
+                    conds = path_conditions(o, i)
+                    pos = any(k.kind == 'bool' and k.expr.kind == 'call' and (
+                        (k.truth is True and k.expr.name.endswith('HashSet::contains')) or
+                        (k.truth is False and k.expr.name.endswith('HashSet::insert'))) for k in conds)
+                    found = True
+                    n += 1
+                    ctx.check(pos and rhs.has_field('query_track'), R, o, 'bestfit:loser-falls-back-to-itself',
+                              'winner_track = %r on the already-taken side' % rhs,
+                              'a query that loses a contest is assigned %r (taken-side=%s) instead of itself' % (
+                                  rhs, pos), s['ln'])
     if not found:
         ctx.fail(R, b, 'bestfit:loser-falls-back-to-itself', 'a query that loses an appearance contest is no longer '
                  'redirected to itself: it stays attached to the contested track')
@@ -539,8 +556,12 @@ def rule_hungarian(ctx, R):
         early = False
         for c in conds:
             cm = c.cmp()
-            if cm and cm[0] == 'Eq' and (cm[1].has_field('track_num') or cm[2].has_field('track_num')):
-                early = True
+            if cm and cm[0] == 'Eq':
+                o = orient(cm, lambda e: e.strip().kind == 'place' and e.strip().root == ('param', 1) and
+                           bool(e.strip().fields))
+                # `self.<number of tracks> == 0` (the field is private: its name is not part of the rule)
+                if o and o[2].kind == 'const' and o[2].const.get('v') == '0':
+                    early = True
         if early:
             n += 1
             ctx.ok(R, b, 'hungarian:early-return-only-without-tracks', 'returns empty when track_num == 0')
@@ -596,19 +617,23 @@ def rule_hungarian_matrix(ctx, R):
     if b is None or nb is None:
         return 0
     n = 0
-    eb = ExprBuilder(b)
-    # assignments through get_mut((r, c)) results
+    from lib import subst_upvars
+    # assignments through get_mut((r, c)) / index_mut results, in winners() or in closures nested in it
     diag = False
     weight_scale = None
-    for i in sorted(b.live_blocks()):
-        for si, s in enumerate(b.blocks[i]['st']):
+    for ob in [b] + all_closures(F, b):
+      eb = ExprBuilder(ob)
+      for i in sorted(ob.live_blocks()):
+        for si, s in enumerate(ob.blocks[i]['st']):
             if s['k'] != 'assign' or not s['lhs']['p'] or s['lhs']['p'][0] != '*':
                 continue
             tgt = eb.place(s['lhs']['l'], (), 0, (i, si))
-            gm = [x for x in tgt.walk() if x.kind == 'call' and x.name.endswith('get_mut') and 'Matrix' in x.name]
+            gm = [x for x in tgt.walk() if x.kind == 'call' and (x.name.endswith('get_mut') or
+                                                                 x.name.endswith('index_mut')) and
+                  ('Matrix' in x.name or 'matrix' in x.name)]
             if not gm:
                 continue
-            rhs = eb._rvalue(s['rv'], (), 0, (i, si))
+            rhs = subst_upvars(F, ob, eb._rvalue(s['rv'], (), 0, (i, si)))
             idx = gm[0].args[1]
             if rhs.has_place(root=('param', 1), field='threshold'):
                 same = idx.kind == 'agg' and len(idx.args) == 2 and repr(idx.args[0]) == repr(idx.args[1])
@@ -641,16 +666,25 @@ def rule_hungarian_matrix(ctx, R):
               'threshold scale %r == weight scale %r' % (thr, weight_scale),
               'the threshold is scaled by %r but the pair weights by %r: gated weights and the new-track weight are '
               'not comparable' % (thr, weight_scale))
-    # output filter
+    # output filter: a pair is reported only if from > 0 && to > 0 (padding rows / columns are ids 0)
+    from lib import necessary_keep_facts
     for cb in F.closures_of(b):
-        ras = [d for d in result_assignments(cb)]
-        for d in cb.defs().get(0, []):
-            if d[0] == 'assign' and d[3]['rv']['k'] == 'agg' and d[3]['rv'].get('v') == 'Some':
-                conds = path_conditions(cb, d[1])
-                gts = [c.cmp() for c in conds if c.cmp()]
-                okf = sum(1 for g in gts if g[0] == 'Gt' and g[2].kind == 'const' and g[2].const.get('v') == '0') >= 2
-                n += 1
-                ctx.check(okf, R, cb, 'hungarian:pairs-filtered-by-positive-ids', 'from > 0 && to > 0',
-                          'an assignment pair is reported without the from > 0 && to > 0 filter (padding rows/columns '
-                          'leak into the winners): %s' % gts)
+        if 'Option' not in cb.locals[0] and cb.locals[0] != 'bool':
+            continue
+        kf, pay = necessary_keep_facts(cb)
+        if 'Option' in cb.locals[0] and not pay:
+            continue
+        gts = [v for v in kf.values() if v[0] in ('Gt', 'Lt', 'Ne', 'Ge')]
+        pos = 0
+        for g in gts:
+            o = orient(g, lambda e: e.kind != 'const')
+            if o and o[2].kind == 'const' and ((o[0] in ('Gt', 'Ne') and o[2].const.get('v') == '0') or
+                                               (o[0] == 'Ge' and o[2].const.get('v') == '1')):
+                pos += 1
+        if not gts and not any(v[0] == 'bool' for v in kf.values()):
+            continue
+        n += 1
+        ctx.check(pos >= 2, R, cb, 'hungarian:pairs-filtered-by-positive-ids', 'from > 0 && to > 0',
+                  'an assignment pair is reported without the from > 0 && to > 0 filter (padding rows/columns '
+                  'leak into the winners): %s' % list(kf))
     return n
